@@ -35,6 +35,8 @@
 (*   r = h mod (B[i+1] - B[i]) + B[i];  one left-to-right pass trying the  *)
 (*   listed numbers in list order at every position that is not preceded   *)
 (*   by a digit, accepting the first one that is not followed by a digit.  *)
+(*   The map of an anonymizer holds every listed number's own r (named     *)
+(*   deviation AvoidCollisions: re-hash when an earlier number took it).   *)
 (***************************************************************************)
 EXTENDS Naturals, Sequences, FiniteSets, TLC
 
@@ -159,9 +161,30 @@ MRepl(d, n, h) ==
               ELSE IF d = "NoBlockOffset" THEN h % size
               ELSE (h % size) + begin)
 
-\* list: the listed numbers in the order given (alternation order)
+\* The replacement map of ONE anonymizer built for `list` (numbers in the order given).
+\* Code as it stands: every number on its own.  Deviation "AvoidCollisions": the map is built in
+\* list order and a number whose replacement is already taken by an EARLIER listed number is
+\* re-hashed (next candidate h+3, h+6, ...) - so the answer depends on the rest of the list and on
+\* its order; an anonymizer for the single number (or any list without that neighbour) answers
+\* differently, which is what R's map learned across anonymizers rejects.
+MapDeviations == {"AvoidCollisions"}
+RECURSIVE AvoidFrom(_, _, _, _)
+AvoidFrom(list, i, h, acc) ==
+  IF i > Len(list) THEN acc
+  ELSE LET n       == list[i]
+           taken   == {acc[m] : m \in DOMAIN acc}
+           Cand(a) == MRepl("none", n, h + 3 * a)
+           free    == {a \in 0..3 : Cand(a) \notin taken}
+           r       == IF n \in DOMAIN acc THEN acc[n]
+                      ELSE IF free = {} THEN Cand(3) ELSE Cand(Min(free))
+       IN AvoidFrom(list, i + 1, h, (n :> r) @@ acc)
+MMap(d, list, h) ==
+  IF d = "AvoidCollisions" THEN AvoidFrom(list, 1, h, << >>)
+  ELSE [n \in {list[i] : i \in 1..Len(list)} |-> MRepl(d, n, h)]
+
+\* list: the listed numbers in the order given (alternation order); rep: this anonymizer's map
 RECURSIVE MScan(_, _, _, _, _, _)
-MScan(d, list, line, p, h, fired) ==
+MScan(d, list, line, p, rep, fired) ==
   IF p > Len(line) THEN << >>
   ELSE LET before   == d = "NoLookbehind" \/ p = 1 \/ ~IsDig(line[p - 1])
            End(k)   == p + Len(list[k]) - 1
@@ -173,7 +196,7 @@ MScan(d, list, line, p, h, fired) ==
                        ELSE {k \in pm : After(k)}
            enabled  == before /\ hits # {} /\ ~(d = "FirstMatchOnly" /\ fired)
        IN IF enabled
-          THEN LET k == Min(hits) IN MRepl(d, list[k], h) \o MScan(d, list, line, End(k) + 1, h, TRUE)
-          ELSE <<line[p]>> \o MScan(d, list, line, p + 1, h, fired)
-MOut(d, list, line, h) == MScan(d, list, line, 1, h, FALSE)
+          THEN LET k == Min(hits) IN rep[list[k]] \o MScan(d, list, line, End(k) + 1, rep, TRUE)
+          ELSE <<line[p]>> \o MScan(d, list, line, p + 1, rep, fired)
+MOut(d, list, line, h) == MScan(d, list, line, 1, MMap(d, list, h), FALSE)
 =============================================================================
